@@ -32,7 +32,9 @@ MInit == file \in {"dirty", "clean"} /\ writes = 0 /\ lastExit = 0
 Fmt == /\ file' = "clean" /\ writes' = (IF file = "dirty" THEN writes + 1 ELSE writes) /\ lastExit' = 0
 Check == /\ UNCHANGED <<file, writes>> /\ lastExit' = (IF file = "clean" THEN 0 ELSE 1)
 Diff == /\ UNCHANGED <<file, writes>> /\ lastExit' \in {0, 1}     \* the exit status of --diff is not fixed by the documentation
-MNext == Fmt \/ Check \/ Diff
+\* both read-only flags together are still read-only; the verdict is --check's
+CheckDiff == Check
+MNext == Fmt \/ Check \/ Diff \/ CheckDiff
 MSpec == MInit /\ [][MNext]_mvars
 \* ---- the same modes on a DIRECTORY (format_files walks every .incn file below the path): the product machine.
 \* dstate: a function file -> "dirty" | "clean". `fmt DIR` rewrites exactly the dirty files; `--check DIR` is read-only and
@@ -40,6 +42,6 @@ MSpec == MInit /\ [][MNext]_mvars
 DirCheckExit(dstate) == IF \E f \in DOMAIN dstate : dstate[f] = "dirty" THEN 1 ELSE 0
 DirAfterFmt(dstate) == [f \in DOMAIN dstate |-> "clean"]
 DirWritten(dstate) == {f \in DOMAIN dstate : dstate[f] = "dirty"}
-ReadOnlyModes == [][(Check \/ Diff) => (file' = file /\ writes' = writes)]_mvars
+ReadOnlyModes == [][(Check \/ Diff \/ CheckDiff) => (file' = file /\ writes' = writes)]_mvars
 CheckAfterFmt == [][Fmt => (file' = "clean")]_mvars
 =============================================================================
